@@ -4,7 +4,7 @@ Implementation-level oracles over every packet PGPy emits for keys / signatures 
 import glob, os, warnings
 from datetime import datetime, timedelta, timezone
 
-from .common import Driver, hx, unhx, hn, unhn, outcome, load_repo, REPO
+from .common import outcome_timed, Driver, hx, unhx, hn, unhn, outcome, load_repo, REPO
 from . import sigcommon as S
 from .keys import get, T0, SPECS
 
@@ -336,6 +336,72 @@ def _run(h):
     grow_after_parse(h)
     big_partial(h)
     usage255_after_unlock(h)
+    foreign_signatures(h)
+
+
+def _split_subpackets(area):
+    """RFC 4880 5.2.3.1, independent of PGPy and of the model: [(type, critical, body)]"""
+    out, i = [], 0
+    while i < len(area):
+        f = area[i]
+        if f < 192: n, i = f, i + 1
+        elif f < 255: n, i = ((f - 192) << 8) + area[i + 1] + 192, i + 2
+        else: n, i = int.from_bytes(area[i + 1:i + 5], 'big'), i + 5
+        if n < 1 or i + n > len(area): raise ValueError('subpacket overruns its area')
+        out.append((area[i] & 0x7f, bool(area[i] & 0x80), bytes(area[i + 1:i + n]))); i += n
+    return out
+
+
+def _sig_fields(body):
+    """v4 signature body -> the field values a re-serialisation must keep"""
+    assert body[0] == 4
+    hl = int.from_bytes(body[4:6], 'big'); hashed = body[6:6 + hl]
+    ul = int.from_bytes(body[6 + hl:8 + hl], 'big'); unhashed = body[8 + hl:8 + hl + ul]
+    rest = body[8 + hl + ul:]
+    return {'head': body[1:4].hex(), 'hashed_octets': hashed.hex(), 'unhashed': [(t, c, b.hex()) for t, c, b in _split_subpackets(unhashed)],
+            'hash2': rest[:2].hex(), 'mpis': S.read_mpis(rest[2:])}
+
+
+def foreign_signatures(h):
+    """well-formed v4 signature packets from another producer: hashed AND unhashed areas with every legal length encoding, flag
+    fields of several octets, unknown types, text in any charset.  Re-serialising must give header length == body length, the same
+    field values, acceptance and a fixed point (the hashed area even octet for octet, C05)."""
+    from .c05 import gen_area
+    ctx, rng = h.ctx, h.ctx.rng
+    fpr = bytes(range(20))
+    for i in range(ctx.n(400, 6000)):
+        hashed, hdesc, _ = gen_area(rng, fpr, rng.choice([0, 1, 2, 3]), wild=False)
+        unh, udesc, _ = gen_area(rng, fpr, rng.choice([0, 1, 1, 2, 4]), wild=False)
+        if rng.random() < 0.5:
+            unh = S.area([unh[2 + 6:]]) if len(unh) > 8 else S.area([])          # drop the leading creation time from the unhashed area
+        mp = [rng.getrandbits(rng.choice([1, 200, 255, 256])) | 1 for _ in range(2)]
+        body = S.sig_body(rng.choice([0x00, 0x01, 0x10, 0x13, 0x18, 0x1f]), 22, rng.choice([8, 10]), hashed, unh, bytes([rng.randrange(256), rng.randrange(256)]), mp)
+        for framing, data in ([('new-min', S.sig_packet(body))] + ([('old', framings(rng, 2, body, True)[0][1])] if i % 4 == 0 else [])):
+            case = {'op': 'foreign-sig', 'pkt': data.hex(), 'hashed': hdesc, 'unhashed': udesc}
+            ctx.case('foreign-signature', data, sample={'hashed': hdesc, 'unhashed': udesc, 'framing': framing})
+            o = outcome_timed(2.0, lambda: h.parse(data + TRAIL))
+            if o[0] != 'ok':
+                # C08 speaks about the foreign packets PGPy ACCEPTS; what it refuses (algorithm ids outside its enums: the C05 finding) is counted only
+                ctx.dist['foreign-signature-refused'] = ctx.dist.get('foreign-signature-refused', 0) + 1
+                continue
+            p, rest = o[1]
+            if rest != TRAIL:
+                ctx.fail('foreign-signature', 'foreign signature: following data touched', dict(case, rest=rest.hex()[:80])); continue
+            b1 = outcome(lambda: bytes(p.__bytearray__()))
+            if b1[0] != 'ok':
+                ctx.fail('foreign-signature', 'cannot re-serialise a parsed foreign signature', dict(case, impl=repr(b1)[:200])); continue
+            b1 = b1[1]
+            sp = outcome(lambda: S.split_packets(b1 + TRAIL))
+            if sp[0] != 'ok' or len(sp[1]) < 1 or sp[1][0][2] != b1 or sp[1][0][0] != 2:
+                ctx.fail('foreign-signature', 're-serialised signature: header length does not equal the body length', dict(case, out=b1.hex()[:600])); continue
+            f0 = _sig_fields(body)
+            f1 = outcome(lambda: _sig_fields(sp[1][0][1]))
+            if f1 != ('ok', f0):
+                ctx.fail('foreign-signature', 're-serialised signature carries other field values (or its areas are not well-formed)',
+                         dict(case, out=b1.hex()[:600], want={k: str(v)[:200] for k, v in f0.items()}, got=repr(f1)[:400])); continue
+            o2 = outcome(lambda: h.parse(b1 + TRAIL))
+            if o2[0] != 'ok' or o2[1][1] != TRAIL or bytes(o2[1][0].__bytearray__()) != b1:
+                ctx.fail('foreign-signature', 'normalised signature is not a fixed point of parse/serialise', dict(case, out=b1.hex()[:600]))
 
 
 def grow_after_parse(h):
@@ -432,6 +498,16 @@ def replay(ctx, case):
                 pkt = bytes.fromhex(case['pkt'])
                 o = outcome(h.parse, pkt + TRAIL)
                 return not (o[0] == 'ok' and o[1][1] == TRAIL and bytes(o[1][0].__bytearray__()) == pkt)
+            if case.get('op') == 'foreign-sig':
+                data = bytes.fromhex(case['pkt'])
+                def flow():
+                    (tag, body, _), = S.split_packets(data)
+                    p, rest = h.parse(data + TRAIL)
+                    b1 = bytes(p.__bytearray__())
+                    sp = S.split_packets(b1 + TRAIL)
+                    p2, rest2 = h.parse(b1 + TRAIL)
+                    return rest == TRAIL and sp[0][2] == b1 and _sig_fields(sp[0][1]) == _sig_fields(body) and rest2 == TRAIL and bytes(p2.__bytearray__()) == b1
+                return outcome(flow) != ('ok', True)
             if case.get('op') == 'foreign' and case.get('pkt'):
                 before = len(ctx.violations)
                 data = bytes.fromhex(case['pkt'])
